@@ -303,7 +303,7 @@ Fixpoint gen_node (fuel : nat) (depth : nat) (context : list chain) (parent : op
    followed by a preorder [flatten] that allocates node ids and temporary edge tags exactly as the
    node pool of _generate_node does (DESIGN section 6: same observable output, checked on every run
    against the implementation; [compile_pool] below keeps the pool version for cross-checking) ---- *)
-Inductive ptree := PNode (rules : list ident) (sign : list ident) (vs : vlist) (ps : plist)
+Inductive ptree := PNode (ended : list chain) (vs : vlist) (ps : plist)     (* ended: the chains that end at this node *)
 with vlist := VNil | VCons (v : bytes) (t : ptree) (r : vlist)
 with plist := PNil | PCons (tag : Z) (cons : list pcons) (t : ptree) (r : plist).
 
@@ -344,17 +344,18 @@ Fixpoint gen_tree (fuel : nat) (depth : nat) (context : list chain) (prev : list
                                     do t <- gen_tree f (S depth) (map snd grp) (tag :: prev) ;;
                                     Ok (tag, snd (fst (fst pm)), t)
                                 end) (p_keys pms) ;;
-      Ok (PNode (map ch_id ended) (flat_map ch_sign ended) (vlist_of vs) (plist_of ps))
+      Ok (PNode ended (vlist_of vs) (plist_of ps))
   end.
 
 (* preorder numbering: this node gets [id], its subtrees the ids after it; a temporary edge gets the
    next temporary tag before its subtree is numbered *)
 Fixpoint flatten (t : ptree) (parent : option N) (id : nat) (tti : N) {struct t} : list gnode * N :=
   match t with
-  | PNode rules sign vs ps =>
+  | PNode ended vs ps =>
       let '(ves, sub1, nid1, tti1) := flatten_vs vs id (S id) tti in
       let '(pes, sub2, nid2, tti2) := flatten_ps ps id nid1 tti1 in
-      ({| g_parent := parent; g_rule := rules; g_vedges := ves; g_pedges := pes; g_sign := sign |} :: sub1 ++ sub2, tti2)
+      ({| g_parent := parent; g_rule := map ch_id ended; g_vedges := ves; g_pedges := pes;
+          g_sign := flat_map ch_sign ended |} :: sub1 ++ sub2, tti2)
   end
 with flatten_vs (l : vlist) (src : nat) (nid : nat) (tti : N) {struct l} : list vedge * list gnode * nat * N :=
   match l with
